@@ -18,9 +18,11 @@ DangerousMods == {"os", "posix", "nt", "subprocess", "sys", "socket", "shutil", 
                   \* submodules of the documented ones
                   "os.path", "urllib.request", "urllib.parse", "dill._dill", "torch.hub.x", "code.x"}
 BenignStdMods == {"collections", "datetime", "fractions", "decimal", "copyreg", "_codecs", "array",
-                  "uuid", "pathlib", "functools", "string", "types", "enum", "re"}
+                  "uuid", "pathlib", "functools", "string", "types", "enum", "re", "operator", "time", "itertools",
+                  "marshal", "_io"}
 NonStdMods    == {"verif_sink", "verif_nat", "numpy", "M1", "M2", "sklearn.tree", "not_a_real_module",
-                  "copy_reg", "pkg.sub"}
+                  "copy_reg", "pkg.sub", "torch", "torch.storage", "torch.serialization", "torch.jit", "operator.impl",
+                  "numpy.testing._private.utils", "numpy.testing._private.utils.x", "numpy.core.multiarray"}
 ModCat(m) == IF m \in BuiltinMods THEN "builtins"
              ELSE IF m \in DangerousMods THEN "dangerous"
              ELSE IF m \in BenignStdMods THEN "benign_std"
